@@ -102,7 +102,7 @@ func RunAPI(h *APIHistory, res *vprop.Result) {
 	sc := &Scenario{Plans: h.Plans}
 	l := newLab(sc)
 	ctx := context.Background()
-	reg := l.newRegistry()
+	reg := l.newRegistry(false)
 	inner, err := sqlite.New(ctx, "", reg, sqlite.WithInMemory())
 	if err != nil {
 		res.Skip = true
